@@ -289,6 +289,7 @@ type Config struct {
 	EndCanary    string  `json:"endCanary,omitempty"` // how quiesce ends a running canary: "", wait, validate, fail, hold
 	NoQuiesce    bool    `json:"noQuiesce,omitempty"`
 	SaneOnly     bool    `json:"saneOnly,omitempty"` // clear pause/freeze annotations before quiesce
+	TargetRollback bool  `json:"targetRollback,omitempty"` // bias faults onto the EDS reconciler's status/spec writes
 }
 
 type World struct {
